@@ -185,6 +185,29 @@ impl<'a> Hist<'a> {
         h
     }
 
+    /// Range of the position (index in the global order of accepted values) at which stream `s`
+    /// started: 0 for the initial stream; for a stream made by add_stream the parent's position
+    /// at some instant of the creating call.
+    pub fn start_range(&self, id: u32) -> (usize, usize) {
+        let s = match self.streams.get(&id) {
+            Some(s) => s,
+            None => return (0, 0),
+        };
+        match s.parent {
+            None => (0, 0),
+            Some(p) => {
+                let (plo, phi) = self.start_range(p);
+                match self.streams.get(&p) {
+                    Some(ps) => (
+                        plo + ps.deliveries.iter().filter(|d| d.t1 < s.c0).count(),
+                        phi + ps.deliveries.iter().filter(|d| d.t0 < s.c1).count(),
+                    ),
+                    None => (plo, phi),
+                }
+            }
+        }
+    }
+
     pub fn completed(&self) -> bool {
         self.ex.outcome.verdict == Verdict::Completed
     }
@@ -226,6 +249,20 @@ impl<'a> Hist<'a> {
                 "mpmc_second_stream",
                 self.streams.values().any(|s| s.created_by_add_stream_with_on_mpmc),
             )
+            .fact("addstream_raced_by_sibling", self.addstream_raced_by_sibling())
+    }
+
+    /// the execution contains an add_stream call on a parent stream that had at least two live
+    /// handles, with a sibling consumer of the parent receiving during the call (the trigger of
+    /// known finding D8)
+    pub fn addstream_raced_by_sibling(&self) -> bool {
+        self.streams.values().any(|s| {
+            s.parent_handles_at_call >= 2
+                && s.parent
+                    .and_then(|p| self.streams.get(&p))
+                    .map(|ps| ps.deliveries.iter().any(|d| d.t0 < s.c1 && d.t1 > s.c0))
+                    .unwrap_or(false)
+        })
     }
 
     /// did a sibling consumer of the same stream commit a receive inside [t0,t1]?
@@ -543,12 +580,13 @@ pub struct StuckReport {
     pub unexplained: bool,
 }
 
-/// upper bound of the number of values outstanding for stream `s` in the final state
+/// upper bound of the number of values outstanding for stream `s` in the final state:
+/// everything accepted so far, minus the smallest position the stream can have started at,
+/// minus what it delivered
 fn outstanding_ub(h: &Hist, s: &StreamInfo) -> usize {
-    // values that can be in the stream's window: accepted by sends that returned after the
-    // creating call began
-    let sent = h.acc.values().filter(|v| v.t1 > s.c0).count();
-    sent.saturating_sub(s.deliveries.len())
+    let (lo_start, _) = h.start_range(s.id);
+    // sends still in flight at the stuck point may have claimed a position without returning
+    h.acc.len().saturating_sub(lo_start).saturating_sub(s.deliveries.len())
 }
 
 pub fn stuck(h: &Hist) -> StuckReport {
@@ -682,12 +720,15 @@ pub fn add_stream(h: &Hist, witness: u32) -> Vec<Finding> {
     let mut order: Vec<&StreamInfo> = h.streams.values().filter(|s| s.id != witness).collect();
     order.sort_by_key(|s| s.c0);
     for s in order {
-        let seq: Vec<u64> = s.deliveries.iter().map(|d| d.id).collect();
+        let mut seq: Vec<u64> = s.deliveries.iter().map(|d| d.id).collect();
         // every delivered value must be in W (the witness got everything accepted after its creation)
         if seq.iter().any(|v| !wpos.contains_key(v)) {
             // values sent before the witness existed: cannot place this stream
             continue;
         }
+        // on a stream shared by several consumers overlapping receives complete in any order:
+        // compare the set of delivered values (their order is the business of the C02 oracle)
+        seq.sort_by_key(|v| wpos[v]);
         let drained = !s.ends.is_empty();
         let p = if let Some(first) = seq.first() {
             wpos[first]
@@ -920,21 +961,16 @@ pub fn quiescent(h: &Hist, probe_op: u32) -> Vec<Finding> {
     if alive.is_empty() {
         return out;
     }
-    // outstanding interval per stream before the probe
+    // outstanding interval per stream before the probe: accepted so far, minus the stream's start
+    // position (exact for streams created while nothing else ran), minus what it delivered
     let total_acc_before = h.acc.values().filter(|v| v.t1 < t_probe).count();
     let mut lo_out: BTreeMap<u32, usize> = BTreeMap::new();
     let mut hi_out: BTreeMap<u32, usize> = BTreeMap::new();
     for s in &alive {
         let delivered = s.deliveries.iter().filter(|d| d.t1 < t_probe).count();
-        // values destined to s: certainly those sent after creation returned; possibly those whose
-        // send had not returned when the creation began.  The start position is also bounded by the
-        // parent's position, which the add_stream oracle checks; here only sends are used.
-        let certain = h.acc.values().filter(|v| v.t1 < t_probe && v.t0 > s.c1).count();
-        let possible = h.acc.values().filter(|v| v.t1 < t_probe && v.t1 > s.c0).count();
-        let possible = if s.parent.is_none() { total_acc_before } else { possible.max(certain) };
-        let certain = if s.parent.is_none() { total_acc_before } else { certain };
-        lo_out.insert(s.id, certain.saturating_sub(delivered));
-        hi_out.insert(s.id, possible.saturating_sub(delivered).min(n));
+        let (lo_start, hi_start) = h.start_range(s.id);
+        lo_out.insert(s.id, total_acc_before.saturating_sub(hi_start).saturating_sub(delivered));
+        hi_out.insert(s.id, total_acc_before.saturating_sub(lo_start).saturating_sub(delivered).min(n));
     }
     let max_lo = lo_out.values().copied().max().unwrap_or(0);
     let max_hi = hi_out.values().copied().max().unwrap_or(0);
